@@ -78,7 +78,7 @@ theorem step_inv {cfg : SmboCfg} {sp : Space} {obj : Obj} {c : Call} {X0 : List 
         rw [hp] at h1'
         simp only [Except.ok.injEq, Prod.mk.injEq] at h1'
         obtain ⟨rfl, rfl⟩ := h1'
-        simp only [smboBackend, Except.ok.injEq] at h2
+        have h2 := smboEvaluateE_ok (show smboEvaluateE cfg _ e.res.score = .ok d1.bst from h2)
         rw [← h2]
         have hxy0 : s0.sm.X.length = s0.sm.Y.length := by rw [hs0.1, hs0.2]; exact hP.xy
         unfold smboEvaluate
